@@ -47,7 +47,8 @@ def run(prog, chk):
         "straight to _write_all; line-buffered mode searches the LAST newline of the new data, sends the buffer through "
         "it and keeps exactly the rest; otherwise the buffer is flushed when it reaches bufsize. (R6) _set_mode is "
         "evaluated from its AST over the complete quotient of its inputs (bufsize < 0, 0, 1, > 1; every subset of the "
-        "mode letters r w a + b U): the buffering and access flags are exactly the documented ones.")
+        "mode letters r w a + b U): the buffering and access flags are exactly the documented ones. (R7) the pending-CR latch of readline is cleared "
+        "on every path through the block that tests it against the next byte.")
     chk.assumptions = ["BytesIO and bytes slicing behave as documented", "Channel.sendall delivers everything or raises (C25)"]
     bf = prog.cls("BufferedFile")
 
@@ -360,6 +361,44 @@ def run(prog, chk):
                     bad = "mode %r bufsize %d -> flags %#x bufsize %r, want %#x / %d" % (mode, bufsize, o._flags, o._bufsize, want, wantbs)
     chk.count("R6 (mode, bufsize) classes evaluated", ncase)
     chk.ob("R6.set-mode-flags", "_set_mode", bad is None, sm.loc, "%d cases%s" % (ncase, "" if bad is None else "; first failing: " + bad))
+
+    # ---- R7 -------------------------------------------------------------------------------------------------
+    # The pending-CR latch: whoever tests it against the next byte consumes it.  In every function, a block entered
+    # under a test of a boolean latch attribute that is set True elsewhere in the class must clear the latch on every
+    # path out of the block - otherwise the same pending CR swallows a second, later LF (an empty line disappears).
+    latches = set()
+    rl = prog.method("BufferedFile", "readline")
+    sets_true = [st for st in walk_no_defs(rl.node) if isinstance(st, ast.Assign) and isinstance(st.value, ast.Constant) and st.value.value is True
+                 and len(st.targets) == 1 and isinstance(st.targets[0], ast.Attribute) and unparse(st.targets[0]).startswith("self.")]
+    for st in sets_true:
+        latches.add(unparse(st.targets[0]))
+    chk.floor("R7", "latch attributes set in readline", len(latches), 1)
+    fl7 = Flow(prog, rl, implicit=False)
+    for latch in sorted(latches):
+        guarded = [n for n in walk_no_defs(rl.node) if isinstance(n, ast.If) and any(unparse(x) == latch for x in ast.walk(n.test))]
+        if not guarded:
+            raise AnalysisError("BufferedFile.readline", "no block is entered under a test of %s" % latch)
+        for gi, g in enumerate(guarded):
+            # the latch must be required true by the test (a conjunct), else the block is not "the latch fired"
+            conj = g.test.values if isinstance(g.test, ast.BoolOp) and isinstance(g.test.op, ast.And) else [g.test]
+            if not any(unparse(c) == latch for c in conj):
+                raise AnalysisError("BufferedFile.readline", "test of %s is not a plain conjunct: %s" % (latch, unparse(g.test)[:80]))
+            inside_ast = set()
+            for b in g.body:
+                for x in ast.walk(b):
+                    inside_ast.add(id(x))
+            inside = set(n.id for n in fl7.cfg.nodes if n.id in fl7.live and n.ast is not None and id(n.ast) in inside_ast)
+            if not inside:
+                raise AnalysisError("BufferedFile.readline", "no CFG nodes for the block guarded by %s" % latch)
+            clears = set(n.id for n in fl7.cfg.nodes if n.id in inside and isinstance(n.ast, ast.Assign) and len(n.ast.targets) == 1 and
+                         unparse(n.ast.targets[0]) == latch and isinstance(n.ast.value, ast.Constant) and n.ast.value.value is False)
+            entries = [i for i in inside if any(p not in inside for (p, _l) in fl7.cfg.pred[i])]
+            seen = fl7.cfg.reach(entries, avoid_nodes=clears)
+            leaks = sorted(i for i in seen if i not in inside)
+            okl = bool(clears) and not leaks
+            chk.ob("R7.pending-cr-latch-consumed-on-every-path", "readline:%s#%d" % (latch, gi), okl, fl7.where(g),
+                   "block under `%s`: %d clearing assignment(s); %s" % (unparse(g.test)[:70], len(clears),
+                                                                        "every path out of the block passes one" if okl else "a path leaves the block with the latch still set"))
 
 
 def _ancestors(node, stop):
